@@ -76,8 +76,12 @@ class NegativeFluentRemover(IdentityDagWalker):
                         break
             else:
                 # make a new one
+                # the fluents created so far are not in self._problem yet
+                used_names = set(nf.name for nf in self._fluent_mapping.values())
                 nf = Fluent(
-                    get_fresh_name(self._problem, f"not_{f.name}"),
+                    get_fresh_name(
+                        self._problem, f"not_{f.name}", used_names=used_names
+                    ),
                     f.type,
                     f.signature,
                     f._env,
